@@ -119,7 +119,7 @@ def oracle(ctx, budget_s=60, cases=None, ccases=None):
                     exp_row[n:] = (case['E'][i, b] * w)[:case['S'] - n]
                 if not np.allclose(out[i, b], exp_row, rtol=1e-12, atol=0) or \
                         np.any((out[i, b] != 0) != (exp_row != 0)):
-                    ctx.violation('receiver-wrap',
+                    ctx.violation('receiver-wrap:_collect_receiver_energy',
                                   'receiver kernel: patch %d delayed by %d of %d bins shows energy where the truncating shift has none' % (i, n, case['S']),
                                   {'P': case['P'], 'B': case['B'], 'S': case['S'], 'c': c, 'dt': dt,
                                    'dist': case['dist'], 'att': case['att'], 'E': case['E']},
